@@ -18,7 +18,6 @@ Proof. intros H. inversion H; auto. Qed.
 Section LdaProofs.
   Context {F : Type} {I : Fld F} {L : FldLaws F}.
   Add Field FF2 : (@Fth F I L).
-  Variable inner : mat F -> bool -> list (vec F) -> option (list (vec F)) -> list (vec F).
 
   Implicit Types (A : mat F) (x y b v u r rl sol rhs xn : vec F) (m : list bool).
 
@@ -663,7 +662,7 @@ Section LdaProofs.
     fold (did_of A SOL RHS).
     assert (Ee : existsb (fun b0 : bool => b0) (did_of A SOL RHS) = false).
     { subst RL. rewrite map_map in H3. pose proof W as [HlA _].
-      clear - H3 Hs Hdb W L HlA inner. revert SOL H3. induction Hs as [|rhs RHS Hsp Hs IH]; intros SOL H3.
+      clear - H3 Hs Hdb W L HlA. revert SOL H3. induction Hs as [|rhs RHS Hsp Hs IH]; intros SOL H3.
       - apply Forall3_nil_inv in H3 as [_ ->]. reflexivity.
       - simpl in H3. destruct (Forall3_cons_inv _ _ _ _ _ H3) as (b1 & lb & sol & SOL' & Eb & -> & Hc & H3').
         injection Eb as <- <-. unfold did_of. simpl. fold (did_of A SOL' RHS).
@@ -676,6 +675,41 @@ Section LdaProofs.
         + apply (pair_ok_nzlen n A m). apply Hdb. }
     rewrite Ee. simpl. auto.
   Qed.
+
+  (* ================================================================ the omitted normalisation *)
+  Lemma conj_nonzero (s : F) : s <> 0 -> fconj s <> 0.
+  Proof. intros Hs E. apply Hs. rewrite <- (conj_invol s), E. apply conj_0. Qed.
+  Lemma hdot_vscale_r (s : F) v b : hdot v (vscale s b) = fconj s * hdot v b.
+  Proof.
+    unfold hdot, vconj, vscale. rewrite map_map.
+    assert (E : map (fun z => fconj (s * z)) b = vscale (fconj s) (map fconj b)).
+    { unfold vscale. rewrite map_map. apply map_ext. intros z. apply conj_mul. }
+    rewrite E. apply vdot_vscale_r.
+  Qed.
+  (* the code stores (x/|b|, b/|b|); every use of a stored pair is through one of the three expressions below,
+     which do not change when x and b are scaled by the same non-zero factor s *)
+  Theorem lda_normalisation_irrelevant (s : F) v x b : s <> 0 -> nrm2 b <> 0 ->
+    vscale (hdot v (vscale s b) / nrm2 (vscale s b)) (vscale s b) = vscale (hdot v b / nrm2 b) b /\
+    vscale (hdot v (vscale s b) / nrm2 (vscale s b)) (vscale s x) = vscale (hdot v b / nrm2 b) x /\
+    (vscale (hdot v (vscale s x) / nrm2 (vscale s x)) (vscale s x) =
+      vscale (hdot v x / nrm2 x) x \/ nrm2 x = 0).
+  Proof.
+    intros Hs Hb. pose proof (conj_nonzero s Hs) as Hcs.
+    assert (Hc : forall w, nrm2 w <> 0 -> forall u, (hdot u (vscale s w) / nrm2 (vscale s w)) * s = hdot u w / nrm2 w).
+    { intros w Hw u. rewrite !nrm2_hdot, !hdot_vscale_r, hdot_vscale_l. rewrite nrm2_hdot in Hw. field. auto. }
+    split; [| split].
+    - rewrite vscale_vscale, Hc; auto.
+    - rewrite vscale_vscale, Hc; auto.
+    - destruct (fis0 (nrm2 x)) eqn:E.
+      + right. apply is0_spec; auto.
+      + left. apply is0_false in E. rewrite vscale_vscale, Hc; auto.
+  Qed.
+
+  (* the 2x2 swap matrix (used by the non-vacuity example) *)
+  Lemma swap_mv (a c : F) : mv [[f0; f1]; [f1; f0]] [a; c] = [c; a].
+  Proof. unfold mv. simpl. f_equal; [ring | f_equal; ring]. Qed.
+
+  Variable inner : mat F -> bool -> list (vec F) -> option (list (vec F)) -> list (vec F).
 
   (* ================================================================ update / solve on the state *)
   Definition inner_ok (n : nat) A : Prop :=
@@ -878,38 +912,6 @@ Section LdaProofs.
       destruct st as [a1 a2 a3 a4 a5 a6]; cbn [s_A s_sym s_herm s_mask s_dbN s_dbH] in *; subst a1 a2 a3; reflexivity.
   Qed.
 
-  (* ================================================================ the omitted normalisation *)
-  Lemma conj_nonzero (s : F) : s <> 0 -> fconj s <> 0.
-  Proof. intros Hs E. apply Hs. rewrite <- (conj_invol s), E. apply conj_0. Qed.
-  Lemma hdot_vscale_r (s : F) v b : hdot v (vscale s b) = fconj s * hdot v b.
-  Proof.
-    unfold hdot, vconj, vscale. rewrite map_map.
-    assert (E : map (fun z => fconj (s * z)) b = vscale (fconj s) (map fconj b)).
-    { unfold vscale. rewrite map_map. apply map_ext. intros z. apply conj_mul. }
-    rewrite E. apply vdot_vscale_r.
-  Qed.
-  (* the code stores (x/|b|, b/|b|); every use of a stored pair is through one of the three expressions below,
-     which do not change when x and b are scaled by the same non-zero factor s *)
-  Theorem lda_normalisation_irrelevant (s : F) v x b : s <> 0 -> nrm2 b <> 0 ->
-    vscale (hdot v (vscale s b) / nrm2 (vscale s b)) (vscale s b) = vscale (hdot v b / nrm2 b) b /\
-    vscale (hdot v (vscale s b) / nrm2 (vscale s b)) (vscale s x) = vscale (hdot v b / nrm2 b) x /\
-    (vscale (hdot v (vscale s x) / nrm2 (vscale s x)) (vscale s x) =
-      vscale (hdot v x / nrm2 x) x \/ nrm2 x = 0).
-  Proof.
-    intros Hs Hb. pose proof (conj_nonzero s Hs) as Hcs.
-    assert (Hc : forall w, nrm2 w <> 0 -> forall u, (hdot u (vscale s w) / nrm2 (vscale s w)) * s = hdot u w / nrm2 w).
-    { intros w Hw u. rewrite !nrm2_hdot, !hdot_vscale_r, hdot_vscale_l. rewrite nrm2_hdot in Hw. field. auto. }
-    split; [| split].
-    - rewrite vscale_vscale, Hc; auto.
-    - rewrite vscale_vscale, Hc; auto.
-    - destruct (fis0 (nrm2 x)) eqn:E.
-      + right. apply is0_spec; auto.
-      + left. apply is0_false in E. rewrite vscale_vscale, Hc; auto.
-  Qed.
-
-  (* the 2x2 swap matrix (used by the non-vacuity example) *)
-  Lemma swap_mv (a c : F) : mv [[f0; f1]; [f1; f0]] [a; c] = [c; a].
-  Proof. unfold mv. simpl. f_equal; [ring | f_equal; ring]. Qed.
 End LdaProofs.
 
 (* ==================================================================== concrete instances over Qc[i] *)
@@ -974,6 +976,27 @@ Section Concrete.
     rewrite E. clear E. induction HR as [|r R Hr HR IH]; simpl; constructor; auto.
     destruct r as [|a [|b [|? ?]]]; simpl in Hr; try discriminate. split.
     - unfold mv. reflexivity.
-    - unfold nv_A. rewrite (@swap_mv C FldC FldLawsC a b). apply (@swap_mv C FldC FldLawsC b a).
+    - transitivity (@mv C FldC [[f0; f1]; [f1; f0]] (@mv C FldC [[f0; f1]; [f1; f0]] [a; b])); [reflexivity |].
+      rewrite (@swap_mv C FldC FldLawsC a b). apply (@swap_mv C FldC FldLawsC b a).
   Qed.
+
+  Lemma nv_hist_ok : hist_ok inner_swap (init_state None None) nv_ops.
+  Proof.
+    unfold nv_ops. cbn [hist_ok]. split.
+    - cbn [op_ok]. change (length nv_A) with 2. split; [| split; [| split; [| split]]].
+      + split; [reflexivity | repeat constructor].
+      + exact nv_swap_ok.
+      + intros _. apply (proj1 (@mat_eqb_spec C FldC FldLawsC _ _)). vm_compute. reflexivity.
+      + cbn. discriminate.
+      + cbn. discriminate.
+    - vm_compute. repeat split; repeat constructor.
+  Qed.
+  (* the history is non-trivial: the first solve and one column of the last block reach the inner solver, the second solve
+     (2*b with trans = 'T' on a symmetric matrix) is answered from the database *)
+  Definition call_pattern (rs : list (option (err + @sres C))) : list nat :=
+    map (fun r => match r with
+                  | Some (inr s) => match r_call s with Some c => length (c_rhs c) | None => 0 end
+                  | _ => 9 end) rs.
+  Lemma nv_calls : call_pattern (run inner_swap (init_state None None) nv_ops) = [9; 1; 0; 1].
+  Proof. vm_compute. reflexivity. Qed.
 End Concrete.
